@@ -9,7 +9,7 @@ import ast
 from . import affine as B
 from .affine import Aff
 from .core import AnalysisError
-from .numeval import Frame, Native, NumEval, Obj, Opaque, PyRaise, _Return
+from .numeval import Frame, Native, NumEval, Obj, Opaque, PyRaise, _Break, _Continue, _Return
 
 READER = "eolib.data.eo_reader.EoReader"
 BREAK = 0xFF
@@ -57,6 +57,15 @@ class AbsData:
                 v = B.uninterp("%s[]" % self.name, [Aff.of(k)], 0, 255)
                 B.assume_ge0(Aff(BREAK - 1) - v)
                 return v
+            elif B.prove_ge0(Aff.of(k) - fargs[0]) is True and B.prove_ge0(ff - Aff.of(k)) is True:
+                # c <= k <= FF(c): either k is the first break (or the end), or it lies before it
+                if B.decide_eq0(Aff.of(k) - ff, "index is the first break"):
+                    if B.decide_ge0(self.L - 1 - ff, "FF(c) < len(data)"):
+                        return BREAK
+                else:
+                    v = B.uninterp("%s[]" % self.name, [Aff.of(k)], 0, 255)
+                    B.assume_ge0(Aff(BREAK - 1) - v)
+                    return v
         return B.uninterp("%s[]" % self.name, [Aff.of(k)], 0, 255)
 
     def load_slice(self, fr, lo, hi, node):
@@ -145,37 +154,98 @@ class StrResult:
 
 
 class SearchRange:
-    """range(lo, hi) over abstract data: only the first-occurrence search loop is understood."""
+    """range(lo, hi) over abstract data: summarised as a first-occurrence search (see search_loop)."""
 
     def __init__(self, lo, hi, world):
         self.lo, self.hi, self.world = lo, hi, world
 
     def abstract_iter(self, fr, st):
-        # for i in range(c, len(data)):  if data[i] == 0xFF: return i
-        ok = (isinstance(st.target, ast.Name) and len(st.body) == 1 and isinstance(st.body[0], ast.If)
-              and not st.body[0].orelse and not st.orelse and len(st.body[0].body) == 1
-              and isinstance(st.body[0].body[0], ast.Return) and isinstance(st.body[0].body[0].value, ast.Name)
-              and st.body[0].body[0].value.id == st.target.id)
-        test = st.body[0].test if ok else None
-        data = None
-        if ok and isinstance(test, ast.Compare) and len(test.ops) == 1 and isinstance(test.ops[0], ast.Eq):
-            sides = [test.left, test.comparators[0]]
-            sub = [s for s in sides if isinstance(s, ast.Subscript)]
-            oth = [s for s in sides if not isinstance(s, ast.Subscript)]
-            if len(sub) == 1 and len(oth) == 1 and isinstance(sub[0].slice, ast.Name) and sub[0].slice.id == st.target.id:
-                data = fr.expr(sub[0].value)
-                val = fr.expr(oth[0])
-                if not (isinstance(data, AbsData) and val == BREAK):
-                    data = None
-        if data is None or B.is_zero(Aff.of(self.hi) - data.L) is not True:
-            raise AnalysisError("engine B: loop over the data at line %d is not the first-0xFF search "
-                                "`for i in range(c, len(data)): if data[i] == 0xFF: return i`" % st.lineno)
-        self.world.search_loops += 1
-        ff = data.ff(self.lo)
-        # found before the end: return FF(c); otherwise fall through with FF(c) == len(data)
-        if B.decide_ge0(data.L - 1 - ff, "break found before end of data @%d" % st.lineno):
-            raise _Return(ff)
-        B.assume_eq0(ff - data.L)
+        if not isinstance(st.target, ast.Name):
+            raise AnalysisError("engine B: loop target at line %d" % st.lineno)
+        search_loop(self.world, fr, st, st.target.id, Aff.of(self.lo), lambda k: B.decide_ge0(Aff.of(self.hi) - 1 - k, "range not exhausted @%d" % st.lineno),
+                    implicit_step=True)
+
+
+def _loop_data(fr, body):
+    found = []
+    for stmt in body:
+        for n in ast.walk(stmt):
+            if isinstance(n, ast.Subscript) and not isinstance(n.slice, ast.Slice) and isinstance(n.value, (ast.Name, ast.Attribute)):
+                try:
+                    v = fr.expr(n.value)
+                except AnalysisError:
+                    continue
+                if isinstance(v, AbsData) and all(v is not x for x in found):
+                    found.append(v)
+    return found
+
+
+def search_loop(world, fr, st, ivar, i0, test_at, implicit_step, depth=0):
+    """Summary of a loop that walks an index upwards by one over abstract data and may leave at a break byte.
+
+    Hypothesis at the head of a generic iteration k >= i0: no 0xFF in [i0, k), i.e. FF(i0) >= k.  It holds at k = i0 and
+    is re-proved for k+1 on every path through the body that stays in the loop (so the loop really is the
+    first-occurrence search; any other carried state or step is refused).  Exits: by the test, at the k where it first
+    fails; by break/return inside iteration k.  Paths that stay in the loop are dropped: the generic k stands for them."""
+    datas = _loop_data(fr, st.body)
+    if len(datas) != 1:
+        raise AnalysisError("engine B: loop at line %d reads %d abstract data objects by index; only a search over one is summarised"
+                            % (st.lineno, len(datas)))
+    data = datas[0]
+    # the first test, at i0
+    fr.env[ivar] = i0
+    if not test_at(i0):
+        if implicit_step:
+            fr.env.pop(ivar, None)
+        fr.block(st.orelse)
+        return
+    if B.prove_ge0(data.L - 1 - i0) is not True or B.prove_ge0(i0) is not True:
+        raise AnalysisError("engine B: the test of the loop at line %d does not keep the index inside the data" % st.lineno)
+    world.search_loops += 1
+    ff = data.ff(i0)
+    B.assume_ge0(ff - i0)
+    k = B.fresh("k@%d" % st.lineno, 0, None)
+    B.assume_ge0(k - i0)
+    B.assume_ge0(ff - k)
+    fr.env[ivar] = k
+    if not test_at(k):
+        # left by the test at k: the previous iteration passed it (k > i0 because the first test passed)
+        B.assume_ge0(k - i0 - 1)
+        fr.env[ivar] = k - 1
+        if not test_at(k - 1):
+            raise B.DeadPath()
+        fr.env[ivar] = (k - 1) if implicit_step else k
+        fr.block(st.orelse)
+        return
+    before = dict(fr.env)
+    try:
+        fr.block(st.body)
+    except _Break:
+        return
+    except _Continue:
+        pass
+    nxt = fr.env.get(ivar)
+    if implicit_step:
+        nxt = k + 1 if isinstance(nxt, Aff) and B.is_zero(nxt - k) else None
+    if not (isinstance(nxt, Aff) and B.is_zero(nxt - k - 1)):
+        raise AnalysisError("engine B: the loop at line %d does not advance its index by exactly one" % st.lineno)
+    for name, v in fr.env.items():
+        if name == ivar:
+            continue
+        old = before.get(name, before)
+        same = v is old or (isinstance(v, (int, Aff)) and isinstance(old, (int, Aff)) and not isinstance(v, bool) and not isinstance(old, bool)
+                            and B.is_zero(Aff.of(v) - Aff.of(old))) or (isinstance(v, bool) and isinstance(old, bool) and v == old)
+        if not same and name in before:
+            raise AnalysisError("engine B: the loop at line %d carries state in %s besides its index" % (st.lineno, name))
+    if B.prove_ge0(ff - k - 1) is not True:
+        # an iteration that stays in the loop although its byte may be the first break
+        if not B.decide_eq0(k - ff, "the loop walks past the first break"):
+            raise B.DeadPath()  # k < FF: the hypothesis holds at k+1, covered by the generic iteration
+        if depth >= 2:
+            raise B.Truncated("loop at line %d walks past break bytes repeatedly" % st.lineno)
+        # exactly at the first break and still looping: the rest of the loop is the same search from k+1
+        return search_loop(world, fr, st, ivar, k + 1, test_at, implicit_step, depth + 1)
+    raise B.DeadPath()  # covered by the generic iteration
 
 
 class ReaderWorld:
@@ -187,7 +257,23 @@ class ReaderWorld:
                                           "bytes": self._bytes,
                                           "first_break": lambda ev, a, k, n: a[0].ff(a[1])})
         self.ev.on_call = self._on_call
+        self.ev.while_hook = self._while
         self.m, self.cls = index.klass(READER)
+
+    def _while(self, fr, st):
+        """`while i < n: ... data[i] ... i += 1`: the search summary; any other while loop is unrolled as usual."""
+        if not _loop_data(fr, st.body):
+            return False
+        steps = [x for x in st.body if isinstance(x, ast.AugAssign) and isinstance(x.target, ast.Name) and isinstance(x.op, ast.Add)
+                 and isinstance(x.value, ast.Constant) and x.value.value == 1]
+        if len(steps) != 1 or not isinstance(fr.env.get(steps[0].target.id), (int, Aff)):
+            raise AnalysisError("engine B: while loop over abstract data at line %d without a single `i += 1` step" % st.lineno)
+        ivar = steps[0].target.id
+
+        def test_at(k):
+            return fr.truth(fr.expr(st.test), st.test)
+        search_loop(self, fr, st, ivar, Aff.of(fr.env[ivar]), test_at, implicit_step=False)
+        return True
 
     # ---- natives
     def _range(self, ev, args, kw, node):
